@@ -18,7 +18,7 @@ ghost keys
 import z3
 from .terms import fresh_real, fresh_int
 
-KEEP_ON_RESHAPE = ('fro2', 'trunc', 'remainder', 'US', 'svd', 'role', 'qr', 'qrole', 'absorb', 'carry', 'diag_trunc')
+KEEP_ON_RESHAPE = ('fro2', 'trunc', 'remainder', 'US', 'svd', 'role', 'qr', 'qrole', 'absorb', 'carry', 'diag_trunc', 'carrier_mat')
 
 
 def new_svd_record(ex, A, U, S, V, k):
@@ -37,11 +37,53 @@ def new_svd_record(ex, A, U, S, V, k):
     return rec
 
 
+def _same_axis(a, b):
+    if a is b or a.factors == b.factors:
+        return True
+    if len(a.factors) != len(b.factors):
+        return False
+    from .tensors import known_eq
+    return all(p is q or known_eq(p.size, q.size) for p, q in zip(a.factors, b.factors))
+
+
+def _flat_factors(axes):
+    return [f for a in axes for f in a.factors]
+
+
+def _same_factor_run(xs, ys):
+    from .tensors import known_eq
+    xs = [f for f in xs if not known_eq(f.size, 1)]
+    ys = [f for f in ys if not known_eq(f.size, 1)]
+    return len(xs) == len(ys) and all(p is q for p, q in zip(xs, ys))
+
+
 def on_reshape(t, out):
     for k in KEEP_ON_RESHAPE:
         if k in t.ghost:
             out.ghost[k] = t.ghost[k]
     out.ghost['reshape_of'] = t.ghost.get('reshape_of', t)
+    # unfoldings of a core (N-d -> 2-d) and foldings back (2-d -> N-d), by identity of the atomic factors
+    if t.ndim >= 3 and out.ndim == 2:
+        if _same_factor_run(out.axes[1].factors, t.axes[-1].factors) and _same_factor_run(out.axes[0].factors, _flat_factors(t.axes[:-1])):
+            out.ghost['unfold_left_of'] = t
+            if t.ghost.get('left_orth_core'):
+                out.ghost['orth_cols'] = True
+        if _same_factor_run(out.axes[0].factors, t.axes[0].factors) and _same_factor_run(out.axes[1].factors, _flat_factors(t.axes[1:])):
+            out.ghost['unfold_right_of'] = t
+            if t.ghost.get('right_orth_core'):
+                out.ghost['orth_rows'] = True
+    if t.ndim == 2 and out.ndim == 2 and _same_factor_run(_flat_factors(out.axes), _flat_factors(t.axes)):
+        # a matrix regrouped into another matrix over the same atomic factors: another unfolding of the same (virtual) core
+        out.ghost['reunfold_of'] = t.ghost.get('reunfold_of', t)
+    if t.ndim == 2 and out.ndim >= 3:
+        if _same_factor_run(out.axes[-1].factors, t.axes[1].factors) and _same_factor_run(_flat_factors(out.axes[:-1]), t.axes[0].factors):
+            out.ghost['fold_left_of'] = t           # rows -> leading axes
+            if t.ghost.get('orth_cols'):
+                out.ghost['left_orth_core'] = True
+        if _same_factor_run(out.axes[0].factors, t.axes[0].factors) and _same_factor_run(_flat_factors(out.axes[1:]), t.axes[1].factors):
+            out.ghost['fold_right_of'] = t          # columns -> trailing axes
+            if t.ghost.get('orth_rows'):
+                out.ghost['right_orth_core'] = True
 
 
 def on_transpose(t, out):
@@ -154,6 +196,8 @@ def on_matmul(ex, a, b, out):
     # R @ G : absorbing the triangular factor of a QR into the next core (orthogonalisation sweep)
     if ga.get('qrole') == 'R':
         out.ghost['carry'] = (ga['qr'], b)
+        if 'unfold_right_of' in gb:
+            out.ghost['carrier_mat'] = {'qr': ga['qr'], 'next_core': gb['unfold_right_of']}
     if gb.get('qr_T') and gb['qr_T'][1] == 'R':
         out.ghost['carry_T'] = (gb['qr_T'][0], a)
     if ga.get('orth_cols') and 'fro2' in gb:
